@@ -8,8 +8,9 @@ From Coq Require Import String List Bool.
 From RV Require Export Lib.Hex Model.Resp Model.Conn Model.MiniExec Corr.Common.
 Import ListNotations.
 
+(* [tbl]: every distinct byte string of the scenario once (hex); steps and replies are indices *)
 Inductive case :=
-| KTx (steps : list (bool * string)) (replies : list string) (dead : bool).
+| KTx (tbl : list string) (steps : list (bool * N)) (replies : list N) (dead : bool).
 
 Definition G : cfg := mk_cfg 60 2 1048576.
 
@@ -17,24 +18,24 @@ Definition G : cfg := mk_cfg 60 2 1048576.
 Definition with_store (k : mconn) (s : list (bytes * mval)) : mconn :=
   mkConn _ _ (cbuf _ _ k) (mkCore _ _ s (txs _ _ (ccore _ _ k)) []) (cstat _ _ k).
 
-Fixpoint go (s : list (bytes * mval)) (ka kb : mconn) (steps : list (bool * string)) (replies : list string) : bool :=
+Fixpoint go (t : list bytes) (s : list (bytes * mval)) (ka kb : mconn) (steps : list (bool * N)) (replies : list N) : bool :=
   match steps, replies with
   | [], [] => true
   | (who, h) :: steps', r :: replies' =>
     let k := with_store (if who then ka else kb) s in
-    let k' := mon_read G k (unhex h) in
+    let k' := mon_read G k (nth (N.to_nat h) t []) in
     let s' := st _ _ (ccore _ _ k') in
-    bytes_eqb (wire (output _ _ k')) (unhex r)
+    bytes_eqb (wire (output _ _ k')) (nth (N.to_nat r) t [])
     && match cstat _ _ k' with Open => true | _ => false end
-    && (if who then go s' k' kb steps' replies' else go s' ka k' steps' replies')
+    && (if who then go t s' k' kb steps' replies' else go t s' ka k' steps' replies')
   | _, _ => false
   end.
 
 Definition check (k : case) : bool :=
   match k with
-  | KTx steps replies dead =>
+  | KTx tbl steps replies dead =>
     if dead then false   (* the model never dies on whole well-formed commands; a dead implementation is a mismatch *)
-    else go [] (conn_init _ _ []) (conn_init _ _ []) steps replies
+    else go (map unhex tbl) [] (conn_init _ _ []) (conn_init _ _ []) steps replies
   end.
 
 Definition mismatches := mismatches_with check.
